@@ -475,6 +475,10 @@ func (in *Inst) scanLoop(lp *Loop) *modSet {
 				continue
 			}
 			switch l := gu.Lhs.(type) {
+			case *ast.IndexExpr:
+				if id, ok := l.X.(*ast.Ident); ok {
+					m.comps["g:"+id.Name] = true
+				}
 			case *ast.Ident:
 				m.comps["g:"+l.Name] = true
 			case *ast.SelectorExpr:
